@@ -217,6 +217,8 @@ func (t *fakeTarget) WriteFeatures(in <-chan processing.Feature) {
 	t.done.Store(true)
 }
 
+var leaksSeen int // leak findings reported by this process so far
+
 // ---- one run ------------------------------------------------------------------------------------------
 
 func allStacks() string {
@@ -331,13 +333,18 @@ func runScenario(sc Scenario, watchdog time.Duration) Result {
 	}
 	res.Millis = float64(time.Since(t0).Microseconds()) / 1000
 	// goroutine accounting: reader and snapper are not waited for by ProcessFeatures, give them time
-	settle := time.Now().Add(3 * time.Second)
+	settleFor := 3 * time.Second
+	if leaksSeen >= 3 { // already reported: do not spend 3 s on every further run
+		settleFor = 20 * time.Millisecond
+	}
+	settle := time.Now().Add(settleFor)
 	for runtime.NumGoroutine() > baseline && time.Now().Before(settle) {
 		time.Sleep(100 * time.Microsecond)
 	}
-	if n := runtime.NumGoroutine(); n > baseline {
+	if n := runtime.NumGoroutine(); n > baseline && leaksSeen < 3 {
 		res.Leaked = n - baseline
 		res.LeakStacks = allStacks()
+		leaksSeen++
 	}
 	res.History = evlog.snapshot()
 	if v := badIDs.Load(); v != nil {
@@ -380,7 +387,7 @@ func childMain() int {
 		res := runScenario(scs[i], time.Duration(wd)*time.Second)
 		b, _ := json.Marshal(res)
 		fmt.Fprintf(out, "E %d %s\n", i, b)
-		if res.Hang || res.Leaked > 0 {
+		if res.Hang {
 			return 0 // stuck goroutines stay behind: let the parent start a fresh process
 		}
 	}
